@@ -110,6 +110,9 @@ class FrameItem(EFLRItem):
 
         index_channel: ChannelItem = self.channels.value[0]
         index_data = data[index_channel.name][:]
+        if index_channel.cast_dtype is not None and index_data.dtype != index_channel.cast_dtype:
+            # the index statistics describe the rows as they are written, i.e. after the channel's cast
+            index_data = np.asarray(index_data).astype(index_channel.cast_dtype)
 
         if self.index_type.value is None:
             # according to RP66, if index_type is None:
